@@ -80,7 +80,7 @@ def rand_screen(rng, W, H, wide_ok=True, prev=None):
         # small edit of the previous screen
         import copy
         scr = copy.deepcopy(prev)
-        scr["height"] = min(H, max(0, scr["height"] + rng.choice([-1, 0, 0, 0, 1])))
+        scr["height"] = min(H + (2 if rng.random() < 0.1 else 0), max(0, scr["height"] + rng.choice([-1, 0, 0, 0, 1, 2])))
         for _ in range(rng.randint(0, 3)):
             if scr["height"] == 0:
                 break
@@ -108,6 +108,8 @@ def rand_screen(rng, W, H, wide_ok=True, prev=None):
     else:
         h = rng.choice([0, 1, 1, 2, H, H, rng.randint(0, H)])
         h = min(h, H)
+        if rng.random() < 0.08:
+            h = H + rng.randint(1, 3)      # a float reaching below the last terminal row
         scr = {"height": h, "rows": {}, "zwe": {}}
         for y in range(h):
             if rng.random() < 0.85:
@@ -118,7 +120,7 @@ def rand_screen(rng, W, H, wide_ok=True, prev=None):
     if r < 0.1:
         scr["cursor"] = None
     else:
-        cy = rng.randrange(h) if h > 0 else 0
+        cy = rng.randrange(min(h, H)) if min(h, H) > 0 else 0
         cx = rng.choice([0, W - 1, rng.randrange(W)])
         scr["cursor"] = (cx, cy)
     scr["zwe"] = {}
